@@ -198,6 +198,21 @@ class _FailingCleanup:
         raise RuntimeError('cleanup object fails')
 
 
+class _OneShotWatcher:
+    """Watches the ENTERED_STATE hook of a process through a bound method and removes that method again once the process has ended."""
+
+    def __init__(self, proc):
+        from plumpy.base.state_machine import StateEventHook
+        self.hook = StateEventHook.ENTERED_STATE
+        self.seen = 0
+        proc.add_state_event_callback(self.hook, self.entered)
+
+    def entered(self, machine, hook, from_state):
+        self.seen += 1
+        if machine.has_terminated():
+            machine.remove_state_event_callback(self.hook, self.entered)
+
+
 class Run:
     """One execution.  After ``execute()`` the attributes hold the complete record."""
 
@@ -462,6 +477,9 @@ class Run:
                     proc.add_process_listener(self.listeners_more[0])
                     proc.add_process_listener(self.listeners_more[0])
                     proc.remove_process_listener(self.listeners_more[0])
+                if case.get('listener') == 'detaching':
+                    # ... and a watcher of the state machine's own event hooks, a bound method that takes itself off when it sees the ending
+                    _OneShotWatcher(proc)
                 if raising:
                     # two more observers, all of them broken: whatever the iteration order, each must still be told
                     self.listeners_more = [RecListener(self, 'listener%d' % k, raising) for k in (2, 3)]
